@@ -48,7 +48,6 @@ Definition deletable_b (fuel : nat) (p : program) (i : nat) : bool :=
 
 (* no '$' in a literal chunk or in a variable name, no '{' '}' ':' in a name,
    names not empty *)
-Definition no_dollar (s : str) : bool := forallb (fun c => negb (c =? 36)) s.
 Definition name_ok (w : var) : bool :=
   match w with [] => false | _ => forallb (fun c => negb ((c =? 36) || (c =? 123) || (c =? 125) || (c =? 58))) w end.
 Definition chunk_ok (c : chunk) : bool :=
